@@ -1170,8 +1170,89 @@ func checkFixedHost(c *FixedHostCase) *Outcome {
 
 var c15fixed = Register(&Prop[FixedHostCase]{ID: "C15", Name: "fixed-host-values", Check: checkFixedHost})
 
+// ---- statically declared Go types (what reflect.StructOf cannot build: unexported fields,
+// embedded structs, named element types): two values of ONE Go type in the stable class have the
+// same yae type, and ValOf's type is TypeOf's type, whichever of the two paths (static type walk
+// for empty / nil parts, value walk otherwise) produces it
+
+type stUnexp struct {
+	A int
+	b string
+}
+type stInner struct {
+	X float64
+	y bool
+}
+type stOuter struct {
+	stInner
+	Rows []stUnexp
+	M    map[string]stUnexp
+	P    *stUnexp `yae:"p,maybe"`
+}
+type stNamedList []stUnexp
+
+type StaticPairCase struct {
+	Name string `json:"name"`
+}
+
+var staticPairs = map[string][2]interface{}{
+	"slice-empty-vs-filled":     {[]stUnexp{}, []stUnexp{{1, "x"}, {2, "y"}}},
+	"map-empty-vs-filled":       {map[string]stUnexp{}, map[string]stUnexp{"k": {1, "x"}}},
+	"named-list":                {stNamedList{}, stNamedList{{3, "z"}}},
+	"nested-empty-vs-filled":    {stOuter{Rows: []stUnexp{}, M: map[string]stUnexp{}}, stOuter{stInner{1.5, true}, []stUnexp{{1, "a"}}, map[string]stUnexp{"k": {2, "b"}}, &stUnexp{3, "c"}}},
+	"pointer-field-nil-vs-set":  {stOuter{Rows: []stUnexp{{1, "a"}}, M: map[string]stUnexp{"k": {}}}, stOuter{Rows: []stUnexp{{1, "a"}}, M: map[string]stUnexp{"k": {}}, P: &stUnexp{}}},
+	"array-of-structs":          {[2]stUnexp{}, [2]stUnexp{{1, "a"}, {2, "b"}}},
+	"slice-of-embedded":         {[]stOuter{}, []stOuter{{Rows: []stUnexp{}, M: map[string]stUnexp{}}}},
+	"map-of-slices":             {map[int][]stInner{}, map[int][]stInner{1: {{1, false}}}},
+	"pointer-to-struct-of-list": {&stOuter{Rows: []stUnexp{}, M: map[string]stUnexp{}}, &stOuter{Rows: []stUnexp{{}}, M: map[string]stUnexp{"a": {}}}},
+}
+
+func checkStaticPair(c *StaticPairCase) *Outcome {
+	pair, okk := staticPairs[c.Name]
+	if !okk {
+		return skip("unknown-static-pair")
+	}
+	var tys [2]*types.Type
+	for i, goV := range pair {
+		var v *val.Val
+		var ty *types.Type
+		var verr, terr error
+		if p := run.Guard(func() { v, verr = conv.ValOf(goV); ty, terr = conv.TypeOf(goV) }); p != nil {
+			return bad("%s: conversion of %#v panicked: %s", c.Name, goV, p.Text)
+		}
+		if verr != nil || terr != nil {
+			return bad("%s: supported data %#v rejected: ValOf: %v, TypeOf: %v", c.Name, goV, verr, terr)
+		}
+		if !types.Equals(v.Type, ty) {
+			return bad("%s: ValOf(%#v) has type %s, TypeOf reports %s", c.Name, goV, v.Type, ty)
+		}
+		if _, probs := run.FromYaeVal(v, nil); len(probs) > 0 {
+			return bad("%s: converted value of %#v is not well-formed: %v", c.Name, goV, probs)
+		}
+		tys[i] = ty
+	}
+	if !types.Equals(tys[0], tys[1]) {
+		return bad("%s: two values of one Go type get different types: %s for %#v, %s for %#v", c.Name, tys[0], pair[0], tys[1], pair[1])
+	}
+	// an expression compiled against one sample accepts the other value
+	for i := range pair {
+		env := map[string]interface{}{"v": pair[i]}
+		other := map[string]interface{}{"v": pair[1-i]}
+		cl, cerr := yae.NewExpr().Compile("string(v)", env)
+		if cerr != nil {
+			return bad("%s: string(v) does not compile against the sample: %v", c.Name, cerr)
+		}
+		if _, err := cl(other); err != nil {
+			return bad("%s: compiled against %#v, the Callable refuses %#v of the same Go type: %v", c.Name, pair[i], pair[1-i], err)
+		}
+	}
+	return ok(true, "static-go-type-pair")
+}
+
+var c15static = Register(&Prop[StaticPairCase]{ID: "C15", Name: "static-type-pairs", Check: checkStaticPair})
+
 func TestC15(t *testing.T) {
-	R.Rule = "Go values built by reflection to depth 4: all integer / float widths, bool, string (incl. invalid UTF-8), time.Time in several zones with nanoseconds, pointers, slices, arrays, maps with primitive / time keys, structs via reflect.StructOf with yae tags (name, name+maybe, maybe only, padded / upper-case, untagged), interface-typed parts, nil-able parts nil or non-nil, unsupported kinds (chan, func, complex, uintptr); pairs of values of one Go type; plus fixed error classes (nil, typed nils, mixed interface slices, 101-deep nesting, recursive Go type, duplicate tag names, struct-keyed map); oracle: relations between ValOf, TypeOf, the environment conversions and the harness's reading of the Go value (contents, order, field names, optional-ness), type stability across values of one Go type for the stable class and acceptance of a sibling value by a compiled expression; non-trivial = value with >= 2 nesting levels and a pointer, map, tagged field, time or interface element"
+	R.Rule = "Go values built by reflection to depth 4: all integer / float widths, bool, string (incl. invalid UTF-8), time.Time in several zones with nanoseconds, pointers, slices, arrays, maps with primitive / time keys, structs via reflect.StructOf with yae tags (name, name+maybe, maybe only, padded / upper-case, untagged), interface-typed parts, nil-able parts nil or non-nil, unsupported kinds (chan, func, complex, uintptr); pairs of values of one Go type; statically declared Go types with unexported fields, embedded structs and named element types (empty / nil vs filled values of one type); plus fixed error classes (nil, typed nils, mixed interface slices, 101-deep nesting, recursive Go type, duplicate tag names, struct-keyed map); oracle: relations between ValOf, TypeOf, the environment conversions and the harness's reading of the Go value (contents, order, field names, optional-ness), type stability across values of one Go type for the stable class and acceptance of a sibling value by a compiled expression; non-trivial = value with >= 2 nesting levels and a pointer, map, tagged field, time or interface element"
 	R.Assume = []string{"expect() in props/c15_test.go is the documented type mapping (README table + tag syntax)", "numeric map keys within ±2^53"}
 	reportKnown(t, "C15")
 	runRegress(t, "C15")
@@ -1183,6 +1264,18 @@ func TestC15(t *testing.T) {
 		sortStringsInPlace(names)
 		for _, n := range names {
 			if !yield(&FixedHostCase{Name: n}) {
+				return
+			}
+		}
+	})
+	c15static.Each(t, "static-go-types", func(yield func(*StaticPairCase) bool) {
+		names := make([]string, 0, len(staticPairs))
+		for n := range staticPairs {
+			names = append(names, n)
+		}
+		sortStringsInPlace(names)
+		for _, n := range names {
+			if !yield(&StaticPairCase{Name: n}) {
 				return
 			}
 		}
